@@ -205,7 +205,8 @@ def run(tier, seed):
     vlib.conformance(o, FAMILY, "SchedulerTrace", "SchedulerTrace.cfg", "c15", rnd, tag="random", chunk=40)
     # binding negative controls on recorded traces
     tr = vlib.split_traces(vlib.read_ndjson(vlib.workdir("C15") + "/trace_random.ndjson"))
-    vlib.binding_selftest(o, FAMILY, "SchedulerTrace", "SchedulerTrace.cfg", tr, mutators())
+    if not o.violations:        # the controls corrupt ACCEPTED traces
+        vlib.binding_selftest(o, FAMILY, "SchedulerTrace", "SchedulerTrace.cfg", tr, mutators())
     return vlib.finish(o, "model_checking", RULE,
                        ["fake clock (clockwork.FakeClock); the clock only moves when every goroutine of the scheduler is durably blocked (testing/synctest), i.e. beacon requests and subscribers take no time",
                         "'not early' is judged on the deadline the scheduler hands to its delay function (slot start + offset), as the property names it; the delay function itself returns at once",
